@@ -51,6 +51,8 @@ type sbCase struct {
 	Room        int        `json:"room"`       // index into sbRoom: GPU size as a multiple of the largest model
 	Layout      int        `json:"layout,omitempty"` // 0 every GPU its own library; 1 all GPUs in one library (a model may span them); 2 = 1 with OLLAMA_SCHED_SPREAD=1
 	NModels     int        `json:"n_models"`
+	Free        int        `json:"free,omitempty"`       // index into sbFree: what a GPU reports as free, as a fraction of its total memory (other programs use the rest)
+	Unreliable  bool       `json:"unreliable,omitempty"` // the GPUs are flagged UnreliableFreeMemory (AMD on Windows)
 	Overhead    int        `json:"overhead,omitempty"` // index into sbOverhead: OLLAMA_GPU_OVERHEAD as a fraction of the largest model
 	Gated       []bool     `json:"gated"`     // per model: its loads wait for an explicit loadok/loadfail action
 	AutoFail    []bool     `json:"auto_fail"` // outcome script of the loads of non-gated models (by birth order)
@@ -68,6 +70,7 @@ var (
 		{Duration: time.Minute}, {Duration: time.Duration(math.MaxInt64)}}
 	sbRoom = []float64{1.15, 2.3, 12, 0.55, 0.4}
 	sbOverhead = []float64{0, 0.05, 0.3, 1.0}
+	sbFree     = []float64{1, 1, 1, 0.75, 0.5}
 )
 
 const sbNumVariants = 6
@@ -85,6 +88,8 @@ func sbGen(t *rapid.T) sbCase {
 	}
 	if c.Inventory >= 1 {
 		c.Overhead = rapid.SampledFrom([]int{0, 0, 0, 1, 2, 3}).Draw(t, "overhead")
+		c.Free = rapid.IntRange(0, len(sbFree)-1).Draw(t, "free")
+		c.Unreliable = rapid.IntRange(0, 3).Draw(t, "unreliable") == 0
 	}
 	c.NModels = rapid.IntRange(1, 4).Draw(t, "n_models")
 	for i := 0; i < 4; i++ {
@@ -99,7 +104,7 @@ func sbGen(t *rapid.T) sbCase {
 	for i := 0; i < n; i++ {
 		var a sbAction
 		a.Kind = rapid.SampledFrom([]string{"submit", "submit", "submit", "submit", "finish", "finish", "finish", "cancel",
-			"loadok", "loadok", "loadok", "loadfail", "ping", "unload", "unload", "advance", "advance", "advance", "settle"}).Draw(t, "kind")
+			"loadok", "loadok", "loadok", "loadfail", "ping", "unload", "unload", "unloadfinish", "advance", "advance", "advance", "settle"}).Draw(t, "kind")
 		switch a.Kind {
 		case "submit":
 			a.Model = rapid.IntRange(0, c.NModels-1).Draw(t, "model")
@@ -112,6 +117,9 @@ func sbGen(t *rapid.T) sbCase {
 			a.Fail = rapid.Bool().Draw(t, "fail")
 		case "unload":
 			a.Model = rapid.IntRange(0, c.NModels-1).Draw(t, "model")
+		case "unloadfinish":
+			a.Model = rapid.IntRange(0, c.NModels-1).Draw(t, "model")
+			a.Idx = rapid.IntRange(0, 5).Draw(t, "idx")
 		case "advance":
 			a.Dur = rapid.IntRange(0, len(sbDurations)-1).Draw(t, "dur")
 		}
@@ -214,6 +222,7 @@ type sbSrv struct {
 	resolved   bool // harness decided the load outcome (or the loader gave up)
 	loadOK     bool
 	pingFail   bool
+	everInfinite bool // some request it was handed to asked for an infinite keep-alive
 	closes     int // Close has returned
 	closeBegun int // Close has been entered
 	bornAt     int
@@ -324,6 +333,7 @@ type sbReq struct {
 	finished  bool // harness cancelled the context (finish or cancel), logged before the cancel
 	cancelled bool // cancelled before any reply had been observed
 	expectI   *sbSrv
+	keepInf   bool // the keep-alive this request asks for (its own, or the configured one if it names none) is infinite
 }
 
 type sbViolation struct{ prop, msg string }
@@ -516,7 +526,22 @@ func (e *sbEngine) getGpus() discover.GpuInfoList {
 	if e.c.Inventory == 0 {
 		return e.getCpus()
 	}
-	return append(discover.GpuInfoList{}, e.inv...)
+	// a GPU reports as free what it had at the start minus what the live runners occupy on it
+	out := append(discover.GpuInfoList{}, e.inv...)
+	e.mu.Lock()
+	for i := range out {
+		var used uint64
+		for _, r := range e.live() {
+			used += r.byGPU[out[i].ID]
+		}
+		if used > out[i].FreeMemory {
+			out[i].FreeMemory = 0
+		} else {
+			out[i].FreeMemory -= used
+		}
+	}
+	e.mu.Unlock()
+	return out
 }
 
 func (e *sbEngine) getCpus() discover.GpuInfoList {
@@ -559,6 +584,7 @@ func (e *sbEngine) requester(r *sbReq, okCh chan *runnerRef, errCh chan error) {
 				// by the scheduler and is no longer "in progress" for C01
 				if inst != nil && inst.closeBegun == 0 {
 					r.granted = inst
+					inst.everInfinite = inst.everInfinite || r.keepInf
 				}
 			case inst == nil:
 				e.violate("C01", "request %d was handed a runner without a server (already unloaded)", r.id)
@@ -568,6 +594,7 @@ func (e *sbEngine) requester(r *sbReq, okCh chan *runnerRef, errCh chan error) {
 				e.violate("C01", "request %d for model %d was handed a runner of model %d", r.id, r.model, inst.model)
 			default:
 				r.granted = inst
+				inst.everInfinite = inst.everInfinite || r.keepInf
 				if !sbCompat(inst, r) {
 					e.violate("C11", "request %d (ctx=%d numgpu=%d batch=%d adapters=%v) was handed runner %d started with incompatible options (ctx=%d parallel=%d numgpu=%d batch=%d adapters=%v)",
 						r.id, r.opts.NumCtx, r.opts.NumGPU, r.opts.NumBatch, r.mdl.AdapterPaths, inst.id, inst.opts.NumCtx, inst.numParallel, inst.opts.NumGPU, inst.opts.NumBatch, inst.adapters)
@@ -676,6 +703,11 @@ func (e *sbEngine) submit(a sbAction) {
 	}
 	ctx, cancel := context.WithCancel(context.Background())
 	r := &sbReq{id: len(e.reqs), model: m, variant: a.Variant, opts: opts, mdl: mdl, cancel: cancel}
+	if k := sbKeepReq[a.Keep%len(sbKeepReq)]; k != nil {
+		r.keepInf = k.Duration == time.Duration(math.MaxInt64)
+	} else {
+		r.keepInf = sbKeepEnv[e.c.KeepAlive%len(sbKeepEnv)] == "-1"
+	}
 
 	e.mu.Lock()
 	unanswered := 0
